@@ -223,7 +223,8 @@ def run_function(target, args=(), kwargs=None, env=None, np_extra=None, repo=Non
 
 
 # ---------------------------------------------------------------------- deciding identities
-class _Timeout(Exception):
+class _Timeout(BaseException):
+    # BaseException: sympy has `except Exception` blocks that would swallow the alarm and let a strategy run on unbounded
     pass
 
 
